@@ -6,7 +6,7 @@
 (* sources).                                                               *)
 (*                                                                         *)
 (* Input (ndjson, IOEnv.TRACE_FILE), one line per scene:                   *)
-(*  {sid, kind: "scan" | "far", body, pose:{R,p2}, valid, exc0, scale,     *)
+(*  {sid, name, kind: "scan" | "far", body, pose:{R,p2}, valid, exc0, scale,*)
 (*   gen, iface, fields:[..], vk:[..], outcome, exc, cpu, shapes:[..],     *)
 (*   pts:[..]}                                                             *)
 (*   valid   the source is a valid input per the documentation (FALSE for  *)
@@ -46,7 +46,7 @@ Locus15(b, xl, S) == LET hit == {i \in DOMAIN Order15 : Order15[i] \in S} IN
                      ELSE IF b.cls \in Magnets THEN Classify(b, xl) ELSE "generic"
 
 Prop(s) == IF s.valid THEN "C15" ELSE "C17"
-Ctx(s, locus, dir, k, fb, kb, detail) == <<s.body.cls, locus, dir, k, fb, kb, s.iface, s.scale, s.exc0, s.gen, detail>>
+Ctx(s, locus, dir, k, fb, kb, detail) == <<s.body.cls, locus, dir, k, fb, kb, s.iface, s.scale, s.exc0, s.gen, detail, s.name>>
 
 \* far points are never singular: m # 0 and 10^k exceeds every body of the catalogue (extent < 10 lattice units)
 FarOK(p) == p.k >= 1 /\ V3(p.m) # Zero3
